@@ -83,6 +83,31 @@ def single_steps_also_fail(recipe, params, total, batches):
          "iterations of the same run do not" % (batches, total))
 
 
+def default_repetition(recipe, decoy_recipe, K=25):
+    """The same problem run twice with the solver's default parameters (first K trials), while another solver
+    with default parameters is created and stepped in between: the sequence is a function of the problem and r."""
+    def run_once():
+        r = Run(recipe, None, record=False, default_params=True)
+        try:
+            r.step(K)
+        except Exception as e:
+            if "outside of interval" not in str(e):
+                raise
+        return seq(r)
+    a = run_once()
+    d = Run(decoy_recipe, None, record=False, default_params=True)
+    try:
+        d.step(3)
+    except Exception as e:
+        if "outside of interval" not in str(e):
+            raise
+    b = run_once()
+    if a != b:
+        fail("the same problem run twice with default parameters gives different trial sequences (%s) after a "
+             "%d-dimensional solver with default parameters was created in between" %
+             (first_diff(a, b), decoy_recipe["n"]))
+
+
 def first_diff(a, b):
     for k, (p, q) in enumerate(zip(a, b)):
         if p != q:
@@ -182,8 +207,13 @@ def cases(draw):
     iters = st.one_of(st.sampled_from([1, 2, 3, 20, 50, 200]), st.integers(5, 200))
     params = draw(gen.solver_params(max(1, min(n, 5)), 10, iters, cheap=False))
     total = draw(st.one_of(st.integers(1, 6), st.integers(5, 60), st.integers(20, 220)))
-    return {"recipe": recipe, "params": params, "batches": draw(gen.compositions(total, max_parts=8)),
+    case = {"recipe": recipe, "params": params, "batches": draw(gen.compositions(total, max_parts=8)),
             "twice": draw(st.booleans())}
+    if draw(st.integers(0, 2)) == 0:
+        # repetition with the solver's default parameters, another solver (dimension 1..7, default parameters too)
+        # being built and stepped between the two runs
+        case["decoy"] = draw(gen.problem_recipe(dims=(1, 2, 3, 5, 6, 7), families=("cones", "sines", "linear")))
+    return case
 
 
 def body(case):
@@ -196,6 +226,8 @@ def body(case):
     again = reference(recipe, params, sum(batches))
     if again is None or again[0] != T or again[1] != nstar or again[2] != ps:
         fail("repeating the same run gives a different trial sequence or result")
+    if case.get("decoy") is not None:
+        default_repetition(recipe, case["decoy"])
     res = check_pattern(recipe, params, batches, T, nstar, ps, twice=case["twice"])
     if res == "skip":
         return False, ["batch-float-resolution"]
